@@ -105,7 +105,14 @@ CHECKS.update({
 })
 
 _PENDING = "check not built yet in this revision (model/theorems under construction); will be claimed when its check exists"
-NOT_APPLICABLE = {pid: _PENDING for pid in ["C08", "C16", "C17"]}
+CHECKS["C08"] = {
+    "text": "25 schema theorems, one per documented form (swap, regroup both ways, fold, factor like terms, distribute both orders, a/b, a-b both ways, x^a*x^b incl. implicit exponents, move addend, divide coefficient) and per documented non-applicable form, each universally quantified over sub-expressions, coefficients, variables, exponents, identities and the surrounding context. Correspondence: schema instances with random parameters in random contexts, real rule applied at the instance node, result compared up to AC with a result instantiated independently in the harness.",
+    "design_ref": "DESIGN.md 3/C08",
+    "note": COMMON_NOTE,
+    "technique": "Lean 4 proof (schema theorems over the rule model) + independently instantiated schema correspondence",
+}
+
+NOT_APPLICABLE = {pid: _PENDING for pid in ["C16", "C17"]}
 
 NOTES = (
     "All checks: /venv/bin/python check.py <id> --tier quick|thorough (honours VERIF_SEED, VERIF_TIER); exit 2 = "
